@@ -1040,6 +1040,7 @@ def t_pages_render(run, rng, T):
     docs = [gen_pages_doc(rng, maxpages) for _ in range(600 if T else 150)]
     outs = yield impl('pages_render', [{'html': d['html']} for d in docs])
     side_cases, doc_cases, kept = [], [], []
+    harness_bad = []
     npages = nblank = 0
     sig_seen = {}
     for d, (st, o) in zip(docs, outs):
@@ -1050,7 +1051,7 @@ def t_pages_render(run, rng, T):
         npages += len(o); nblank += sum(1 for p in o if p['blank'])
         for sig, msg in judge_pages_doc(d, o):
             if sig.startswith('harness:'):
-                run.oblige(sig, False, msg + '\n' + d['html'])
+                harness_bad.append(msg + '\n' + d['html'])
                 break
             if sig_seen.setdefault(sig, 0) < 2:
                 run.fail('pages-render: ' + msg, {'stream': 'pages-render', 'html': d['html'], 'clause': sig, 'doc': strip_doc(d)}, signature=sig)
@@ -1073,6 +1074,8 @@ def t_pages_render(run, rng, T):
             lst(d['rules'], drule_lit),
             lst(o, lambda p: pt_lit([p['side'], p['blank'], p['name'], p['index'], p['groups']])), lst(o, obs)))
         kept.append(d)
+    run.oblige('harness:pagination-prediction(pages-render documents paginate as the generator assumes)', not harness_bad,
+               '%d documents; first: %s' % (len(harness_bad), harness_bad[0] if harness_bad else ''))
     masks, masks2 = yield ('evals', [
         coq('c14sides', PRE, 'bool * brk * list brk * list (side * bool)', side_cases, 'sides_judge', per_file=20),
         coq('c14doc', PRE, 'list drule * (Z * Z) * list page_type * list page_obs', doc_cases, 'doc_judge', per_file=12)])
